@@ -38,6 +38,68 @@ def gOkScalar (tbl : ClassTable) (k c : Cls) : Bool :=
 def isContainerCls (k : Cls) : Bool :=
   k == C.tuple || k == C.list || k == C.set || k == C.frozenset || k == C.dict || k == C.str || k == C.bytes
 
+/-! ### Laws added for the C04 theorems (`Props/C04.lean`, second half)
+
+All are decidable statements about the class-level verdicts only; `c04Law tbl c` bundles the ones
+about one class `c` (quantifying over the other classes of the table), `c04Dims` the dimension
+facts. They are conjuncts of `tableOk` (inside its last per-class conjunct, so that the positional
+destructuring of `tableOk` in `Proofs/C03.lean` is unaffected). -/
+
+/-- `g = [param i, param (i+1), …]`: the generic base passes the subclass's own parameters through
+unchanged and in order. -/
+def isIdFrom : Nat → List GArg → Bool
+  | _, [] => true
+  | i, .param j :: g => i == j && isIdFrom (i + 1) g
+  | _, _ => false
+
+/-- some builtin container class (whose objects have element structure in `Obj`) is a subclass of `d` -/
+def contSuper (tbl : ClassTable) (d : Cls) : Bool :=
+  sub tbl C.tuple d || sub tbl C.list d || sub tbl C.set d || sub tbl C.frozenset d || sub tbl C.dict d
+
+/-- The "Any only matches Any" matrices have no entries outside the table (so that the
+mode-monotonicity law (X) below covers every class number). -/
+def c04Dims (tbl : ClassTable) : Bool :=
+  let n := tbl.size
+  let ok := fun (m : List (List Bool)) => decide (m.length ≤ n) && m.all fun r => decide (r.length ≤ n)
+  ok tbl.nominalXM && ok tbl.nominalKXM && ok tbl.nominalCXM
+
+def c04Law (tbl : ClassTable) (c : Cls) : Bool :=
+  let n := tbl.size
+  -- (R) every class accepts itself, in both modes; a generic class seen as itself has its own
+  --     parameters, unchanged and in order, as arguments
+  tbl.nominal false c c && tbl.nominal true c c &&
+  (tbl.arity c == 0 ||
+    match tbl.gbase c c with
+    | some g => g.length == tbl.arity c && isIdFrom 0 g
+    | none => false) &&
+  -- (O) `object` accepts the class `c`: as a type, as a class object, and its literal instances
+  tbl.nominal false C.object c && tbl.nominal true C.object c &&
+  tbl.nominalC false C.object c && tbl.nominalC true C.object c && tbl.issub c C.object &&
+  -- (L') `tuple` and `list` have no proper subclasses in the table (strengthens (L))
+  (!(sub tbl c C.tuple) || c == C.tuple) && (!(sub tbl c C.list) || c == C.list) &&
+  -- (F) `frozenset` towards generic classes: as `tuple`/`list`/`set` above
+  gOkSeq tbl C.frozenset c &&
+  -- (T) membership in classes is transitive into `c`, unless `c` is a non-generic protocol
+  --     (`issubclass` is not transitive at `Hashable`: `list` ≤ `object` ≤ `Hashable`)
+  ((tbl.isProtocol c && tbl.arity c == 0) ||
+    allBelow n fun b => !(sub tbl b c) || allBelow n fun a => !(sub tbl a b) || sub tbl a c) &&
+  allBelow n fun d =>
+    -- (X) what is accepted in the "Any only matches Any" mode is accepted in the normal mode
+    (!(tbl.nominal true c d) || tbl.nominal false c d) &&
+    (!(tbl.nominalK true c d) || tbl.nominalK false c d) &&
+    (!(tbl.nominalC true c d) || tbl.nominalC false c d) &&
+    -- (G) generic bases of `d` towards a generic class `c`: a base of matching arity exists only
+    --     for subclasses, and for super-classes of the builtin containers it passes the parameters
+    --     through in order; without such a base a super-class of a builtin container is not
+    --     accepted by the nominal fallback (which would leave the element types unchecked)
+    (tbl.arity c == 0 ||
+      match tbl.gbase d c with
+      | some g =>
+        if g.length == tbl.arity c then
+          sub tbl d c && (!(contSuper tbl d) || (isIdFrom 0 g && decide (tbl.arity c ≤ tbl.arity d)))
+        else !(contSuper tbl d) || !(tbl.nominal false c d)
+      | none => !(contSuper tbl d) || !(tbl.nominal false c d))
+
 def tableOk (tbl : ClassTable) : Bool :=
   let n := tbl.size
   allBelow n (fun c => tbl.issub c c && decide (tbl.metaOf c < n)) &&
@@ -69,8 +131,9 @@ def tableOk (tbl : ClassTable) : Bool :=
     (!(sub tbl k C.tuple) && !(sub tbl k C.list))) &&
   -- (U) user classes and metaclasses are not the builtin container classes, and `type(c)` is
   --     listed as a metaclass (so the scalar law above applies to instances and class objects)
-  allBelow n (fun k => !(tbl.isUser k && isContainerCls k) && !(isContainerCls (tbl.metaOf k)) &&
-    tbl.metaL.contains (tbl.metaOf k))
+  --     … and the laws added for the C04 theorems (`c04Law`, `c04Dims` above)
+  allBelow n (fun k => (!(tbl.isUser k && isContainerCls k) && (c04Law tbl k && c04Dims tbl)) &&
+    !(isContainerCls (tbl.metaOf k)) && tbl.metaL.contains (tbl.metaOf k))
 where
   /-- classes without instances in the object universe (their `nominalK` row is not populated) -/
   isAbstractOrMeta (tbl : ClassTable) (d : Cls) : Bool := !(instCls tbl d)
